@@ -29,6 +29,11 @@ class TBuilder(Builder):
         r = self.rng
         uid = self.new_uid()
         nm = self.name("sec" if section else "tst", uid)
+        if section and self.section_names and r.random() < 0.15:
+            nm = r.choice(self.section_names)        # the same section name again, e.g. in another test
+            self.reused_names += 1
+        if section:
+            self.section_names.append(nm)
         ef = r.random() < 0.5
         rest = [r.choice(CT_EXTRA) for _ in range(r.randint(0, 3))]
         if ef:
@@ -40,7 +45,9 @@ class TBuilder(Builder):
         self.name_positions.add(min(pos, 5))
         kind = "ct_add_section" if section else "ct_add_test"
         impl = self.test_impl(depth, nm)
-        return Item(kind, kind, args, uid, doc=self.doc(uid), impl=impl, name=nm, expectfail=ef)
+        it = Item(kind, kind, args, uid, doc=self.doc(uid), impl=impl, name=nm, expectfail=ef)
+        it.between = self.gap_items()
+        return it
 
 
 class Prop(BaseProp):
@@ -68,6 +75,8 @@ class Prop(BaseProp):
                      kinds=["add_test", "add_test", "ct_add_test", "ct_add_test", "function", "plain", "block", "set"])
         b.same_as_name = 0
         b.name_positions = set()
+        b.section_names = []
+        b.reused_names = 0
         mod = b.module()
         text = render(mod, Layout(rng, comments=0.1, wild=0.2, case="random"))
         exp = expected_entries(mod)
@@ -75,6 +84,8 @@ class Prop(BaseProp):
         res.sig = sig_hash([[(e.kind, e.item.args.index("NAME"), len(e.item.args), e.sig == "EXPECTFAIL") for e in tgt]])
         res.nontrivial = bool(tgt)
         res.count("args_equal_to_name", b.same_as_name)
+        res.count("section_names_used_again", b.reused_names)
+        res.count("declarations_without_own_definition", sum(1 for it in mod.walk() if it.kind in ("ct_add_test", "ct_add_section") and it.impl is None))
         for p in b.name_positions:
             res.see("name_positions", p)
         o, _ = runner.document_text(text, runner.make_settings())
@@ -87,8 +98,8 @@ class Prop(BaseProp):
         obs = [(rstscan.kind_of(n), n) for n in page.entries()]
         obs_t = [(k, n) for k, n in obs if k in ("ctest", "test", "section")]
         # sequence of test-like entries = source order
-        want_seq = [(e.kind, e.uid) for e in tgt]
-        got_seq = [(k, n.uid()) for k, n in obs_t]
+        want_seq = [(e.kind, e.name) for e in tgt]
+        got_seq = [(k, n.arg[:n.arg.rindex("(")] if "(" in n.arg else n.arg) for k, n in obs_t]
         if want_seq != got_seq:
             res.violate("test-entry-sequence", f"expected {want_seq}, got {got_seq}", wit)
         else:
